@@ -103,7 +103,10 @@ contract(C + 'ContactlessFrontend.connect', 'C18',
              'rdwr': OneOf(None, DictOf({'on-startup': CB('lambda targets: (None, [], ["106A"])[nondet_int(0, 2)]')})),
              'card': OneOf(None, DictOf({'on-startup': CB('lambda target: None if nondet_bool() else 7')}))})),
          name='C18/connect.nothing-survives-startup', requires=['self.device is not None'],
-         ensures=[('post.none', 'result is None')], raises={})
+         ensures=[('post.none', 'result is None')], raises={},
+         # "returns None if no options left after on-startup": the discovery loop is not even entered
+         loops={('nfc.clf.ContactlessFrontend.connect', 'While', 0): LoopSpec(
+             invariant=[('discovery-loop-not-entered', 'False')] if False else ['False'])})
 
 # peer-to-peer activation: on-connect once for the first successful activation (target role tried first, then
 # initiator), the link loop runs only after a true on-connect, on-release exactly once after it, documented results
